@@ -53,8 +53,13 @@ def step (d : DS) (line : String) : DS × String :=
     (match parseNat k, parseBytes data with
      | some k, some data =>
        if k = 0 then (d, "bad-op") else
-       let r := handleRequest H staticTable k (St.fresh data)
-       (d, s!"ok {connStr r.2} body={hexOfBytes r.1}")
+       let r := requestHandler H staticTable k (St.fresh data)
+       let herr := match r.2 with
+         | .ok _ _ => "nil"
+         | .err e _ => errTag e
+         | .panic => "?"
+         | .hang => "?"
+       (d, s!"ok {connStr (finish r.2)} herr={herr} body={hexOfBytes r.1}")
      | _, _ => (d, "bad-op"))
   | toks =>
     if d.broken then (d, "skipped") else
